@@ -145,6 +145,8 @@ static void spin_check(struct sim *s)
 	if (s->idle_calls > 10000 && !s->spin_reported) {
 		char key[96];
 
+		VO.muted = false; /* a spin found during a dry run is as real as any other */
+
 		s->spin_reported = true;
 		snprintf(key, sizeof(key), "C08:spin:state-%d", s->sock->state);
 		viol("C08", key, "%ld transport calls without virtual time advancing or input being consumed (socket state %d)",
@@ -152,6 +154,7 @@ static void spin_check(struct sim *s)
 		snprintf(key, sizeof(key), "C04:spin:state-%d", s->sock->state);
 		viol("C04", key, "client loops without letting time advance (socket state %d)", s->sock->state);
 		s->finished = true;
+		vo_abort_case(); /* the loop may never reach a cancellation point: end this process here */
 	}
 }
 
@@ -654,6 +657,9 @@ void sim_attach(struct sim *s, struct rtr_socket *sock, struct pfx_table *pfxt, 
 
 void sim_begin_phase(struct sim *s)
 {
+	while (sem_trywait(&s->done) == 0)
+		; /* left-over wake-ups of the previous phase */
+	s->parked = false;
 	s->t_phase_start = VNOW;
 	s->finished = false;
 	s->parkable_calls = 0;
